@@ -6,6 +6,7 @@ import (
 	"fmt"
 	"os"
 	"sort"
+	"strconv"
 	"strings"
 
 	"github.com/gethiox/HIDI/internal/pkg/input"
@@ -184,11 +185,7 @@ func (d *Desc) Alphabet() []Sym {
 			return
 		}
 		seen[k] = true
-		code, ok := evdev.KEYFromString[k]
-		if !ok {
-			panic("VERIF-INFRA: unknown key name " + k)
-		}
-		out = append(out, Sym{Name: k, Code: code, Action: action})
+		out = append(out, Sym{Name: k, Code: keyCode(k), Action: action})
 	}
 	for _, m := range d.Mappings {
 		for _, k := range sortedKeys(m.Keys) {
@@ -249,6 +246,32 @@ func (d *Desc) Build(out chan midi.Event, sigs chan os.Signal) (*device.Device, 
 	}
 	dev := device.NewDevice(in, config.DeviceConfig{ConfigFile: "scenario", ConfigType: "verif", Config: cfg}, out, nil, true, 1, sigs)
 	return &dev, nil
+}
+
+// keyCode: evdev code of a key given by name or as x<hex> (the two spellings the config format allows)
+func keyCode(k string) evdev.EvCode {
+	if strings.HasPrefix(k, "x") {
+		v, err := strconv.ParseUint(k[1:], 16, 16)
+		if err != nil {
+			panic("VERIF-INFRA: bad hex key " + k)
+		}
+		return evdev.EvCode(v)
+	}
+	c, ok := evdev.KEYFromString[k]
+	if !ok {
+		panic("VERIF-INFRA: unknown key name " + k)
+	}
+	return c
+}
+
+// buildFromTOML: like Build but with an explicitly given configuration text (AbsInfos still from d).
+func buildFromTOML(d *Desc, text string, out chan midi.Event, sigs chan os.Signal) (*device.Device, error) {
+	cfg, err := config.ParseData([]byte(text))
+	if err != nil {
+		return nil, fmt.Errorf("real parser rejected the configuration: %w\n%s", err, text)
+	}
+	d.cfg = &cfg
+	return d.Build(out, sigs)
 }
 
 func inputEvent(alpha []Sym, e Event) *input.InputEvent {
